@@ -64,15 +64,18 @@ Masks(n) == {[form |-> "mask", a |-> 0, b |-> 0, st |-> 0,
 IndexArrays(n) == {[form |-> "index", a |-> 0, b |-> 0, st |-> 0, idx |-> q] :
                       q \in UNION {[1..k -> 0..(n - 1)] : k \in 1..3}}
 
+\* the same mask / index vector given as a plain Python list instead of an array of the namespace
+AsList(S, form) == {[s EXCEPT !.form = form] : s \in S}
 NonEmpty(S) == {s \in S : Len(s.idx) > 0}
 Selectors(n) == NonEmpty(Slices(n)) \cup Ints(n) \cup Masks(n) \cup IndexArrays(n)
+                \cup AsList(Masks(n), "masklist") \cup AsList(IndexArrays(n), "indexlist")
 
 \* depth-2 cases use a reduced selector set
 FewSelectors(n) == {s \in Selectors(n) :
                       \/ s.form = "int" /\ s.a = 0
                       \/ s.form = "slice" /\ <<s.a, s.b, s.st>> \in {<<1, n, 1>>, <<0, n, 2>>, <<n - 1, 0 - 1, 0 - 1>>}
-                      \/ s.form = "mask" /\ Len(s.idx) = n - 1 /\ s.idx[1] = 1
-                      \/ s.form = "index" /\ s.idx = <<n - 1, 0, 0>>}
+                      \/ s.form \in {"mask", "masklist"} /\ Len(s.idx) = n - 1 /\ s.idx[1] = 1
+                      \/ s.form \in {"index", "indexlist"} /\ s.idx = <<n - 1, 0, 0>>}
 
 (* ---- operations ------------------------------------------------------ *)
 Select(o, s) ==
